@@ -12,7 +12,7 @@ TYPES = ['text', 'TEXT', 'submit', 'Submit', 'radio', 'checkbox', 'hidden', 'num
          'month', 'datetime-local', 'search', 'tel', 'url', 'email', 'password', 'button', 'reset', 'foo', '', 'wee\u212a']
 BOUNDS = ['1', '5', '3', '-1', '.5', 'x', '', '٣', '５', '२.५', '2019-W53', '2020-W53', '2020-W10', '2020-02-30', '2020-02-29',
           '2019-02-29', '10:00', '23:59', '24:00', '04:30', '2020-01', '2020-13', '2020-01-01T10:00', 'abc', '1e3',
-          '0999-W01', '10000-W01', '0001-01-01', '12000-12-31']
+          '0999-W01', '10000-W01', '0001-01-01', '12000-12-31', '00:00', '00:00', '0', '0000-01', '00:01']
 TEXTS = ['abc', 'אבג', '123', ' ', '‏', 'ابج x', '', 'x', '\n']
 LANGS = ['en', 'en-US', 'de', 'de-DE-1996', '', 'fr', 'x-y']
 
@@ -65,6 +65,10 @@ def gen_form_doc(rng, iframes=True, nested_forms=True, max_nodes=30, lang=True, 
         if k == 'option' and rng.random() < .4:
             e.attrs['selected'] = ''
         if k in ('p', 'span', 'bdi', 'custom-el', 'legend'):
+            if rng.random() < .1:
+                e.attrs['type'] = rng.choice(['submit', 'radio', 'checkbox'])       # a look-alike: only input/button are controls
+                if rng.random() < .5:
+                    e.attrs['checked'] = ''
             if rng.random() < .6:
                 e.kids.append(T('text', rng.choice(TEXTS)))
             if rng.random() < .2:
